@@ -1,7 +1,7 @@
 (* C11 - soundness of the trace monitor, and safety of the to_file protocol model (and of the
    command-line paths ending in it) for every fault index and every chunk list. *)
 From PV Require Import Base.Prelude Spec.BuildSpec Spec.FsSem Instances.HoldsC11 Model.FsProto Model.FsProtoInst
-  Generated.T_files_file Generated.T_file_proto Generated.T_p8_proto Generated.T_png_proto.
+  Generated.T_file_proto Generated.T_p8_proto Generated.T_png_proto.
 
 (* ---------- pins: the shape of the real code the model mirrors ---------- *)
 (* to_file: formatter chosen first; temporary file; exists(); encoder; seek; only then open(filename); write(read()) *)
